@@ -35,13 +35,18 @@ def observe(ex, st, R, op, n, nb, N):
 
 def job_history(res, n, N, spacing, buckets, maxlen, cutoff_on):
     bld = field_build(); mod = load_module(bld, FIELD_MODS)
-    snap, R, pre, plans, calib = field_world(bld, n, N, spacing, buckets, 1 if cutoff_on else 0)
+    flag = cutoff_on if (isinstance(cutoff_on, int) and cutoff_on >= 10) else (1 if cutoff_on else 0)      # 100 * (exact zeros at the top of the impedance) + cutoff on
+    ztail = flag // 100; cutoff_on = flag % 10
+    snap, R, pre, plans, calib = field_world(bld, n, N, spacing, buckets, flag)
     nb = len(buckets)
-    c2r_ok = calib.get('c2r_input_preserved') or (calib.get('c2r_inplace') and calib.get('c2r_inplace_tail_preserved'))      # in place: the model writes the outputs over the input cells exactly as the plan does (same addresses); the cells beyond stay
+    c2r_ok = calib.get('c2r_input_preserved') or (calib.get('c2r_inplace') and calib.get('c2r_inplace_tail_preserved')) or calib.get('c2r_changed_lo', -1) >= 0      # input used as scratch space: modelled (the cells the native run changed become unknown)      # in place: the model writes the outputs over the input cells exactly as the plan does (same addresses); the cells beyond stay
     if not (c2r_ok and calib.get('buffers_zero_after_planning')):
         res.obs.append(Ob('FFTW calibration (planning leaves zeroed buffers zero; c2r leaves its input unchanged) for N=%d' % N, 'inconclusive', detail=str(calib))); return
     AP = {k: 3e-5 for k in ('wake', 'csr', 'csrpower', 'wake2', 'wpm_force')}
-    validate(res, mod, snap, pre, {'fftwf_execute': fft_concrete(plans)}, approx=AP)
+    # with a c2r plan that uses its input as scratch space, results of later calls can depend on FFTW's scratch values (they must not: that is the obligation below); the concrete
+    # model cannot reproduce those values, so only the first calls are validated bit for bit there
+    clob = any(p_.get('clobber') for p_ in plans.values())
+    validate(res, mod, snap, pre, {'fftwf_execute': fft_concrete(plans)}, approx=AP, skip=('wake2', 'wpm_force') if clob else ())
     cutoff = Fraction(f32(3e11)) if cutoff_on else Fraction(0)
     # reference: a fresh object on the current profile - every path of the query, each with its own result
     fresh = {}
@@ -64,7 +69,7 @@ def job_history(res, n, N, spacing, buckets, maxlen, cutoff_on):
                 cur = set_profile(ex, s2, R, n, nb, 'cur')
                 for s3 in do_ops(ex, s2, R, q, cutoff):
                     got = observe(ex, s3, R, q, n, nb, N); account(res, ex, mod, [s3])
-                    def cex(m, h=h, q=q): return {'replay': 'history', 'n': n, 'N': N, 'spacing': spacing, 'buckets': list(buckets), 'history': list(h), 'query': q, 'cutoff': float(cutoff), 'cutoff2': 0.0 if cutoff else float(CUT_ON),
+                    def cex(m, h=h, q=q): return {'replay': 'history', 'n': n, 'N': N, 'spacing': spacing, 'buckets': list(buckets), 'history': list(h), 'query': q, 'cutoff': float(cutoff), 'cutoff2': 0.0 if cutoff else float(CUT_ON), 'ztail': ztail,
                                                     'profiles': [[(mval(m, z3.Real('old%d_%d' % (j, i))) or 0.0) for i in range(nb * n)] for j in range(len(h))], 'cur': [mval(m, v) for v in cur]}
                     # the fresh object's result on the same current profile: the reference path whose condition the current profile satisfies
                     differs = z3.Or(*[z3.And(z3.And(*fpc) if fpc else z3.BoolVal(True), z3.Or(*[a != b for a, b in zip(got, fgot)])) for fpc, fgot in fresh[q]])
@@ -78,7 +83,7 @@ def job_history(res, n, N, spacing, buckets, maxlen, cutoff_on):
 def replayer(bld):
     def rp(path, c):
         n, N = c['n'], c['N']
-        base = {'n': n, 'N': N, 'spacing': c['spacing'], 'buckets': c['buckets'], 'cutoff': c.get('cutoff', 0.0), 'cutoff2': c.get('cutoff2', 0.0)}
+        base = {'n': n, 'N': N, 'spacing': c['spacing'], 'buckets': c['buckets'], 'cutoff': c.get('cutoff', 0.0), 'cutoff2': c.get('cutoff2', 0.0), 'ztail': c.get('ztail', 0)}
         # concrete profiles: model values may be 0 everywhere except a few cells; make the old profiles clearly different from the current one
         import random as _r; rr = _r.Random(5)
         olds = [[float(v) if v else rr.uniform(0.1, 1.0) for v in p] for p in c['profiles']]; cur = [float(v or 0.0) for v in c['cur']]      # earlier profiles: generic where the model left them open; the current profile exactly as the model has it (an empty or negative profile may be what matters)
@@ -102,7 +107,7 @@ def main(tier):
     chk = Check('C18', tier, '4/C18')
     bld = field_build()
     if tier == 'quick':
-        cfgs = [(4, 8, 0, (0,), 2, 0), (4, 12, 5, (1, 0), 2, 0), (4, 11, 5, (1,), 2, 0), (3, 12, 4, (0, 2), 2, 1), (4, 9, 5, (0, 1), 2, 0)]
+        cfgs = [(4, 8, 0, (0,), 2, 0), (4, 12, 5, (1, 0), 2, 0), (4, 11, 5, (1,), 2, 0), (3, 12, 4, (0, 2), 2, 1), (4, 9, 5, (0, 1), 2, 0), (4, 24, 5, (1, 0), 2, 0), (4, 24, 0, (0,), 2, 400)]      # 24: a length whose c2r plan uses its input as scratch space; 400: impedance table ending four samples below the top
     else:
         cfgs = [(4, N, 5, b, 3, c) for N in (8, 9, 11, 12, 16) for b in ((0,), (1,), (0, 1), (1, 0)) if max(b) * 5 + 4 <= N for c in (0, 1)]
         cfgs += [(3, 12, 4, (0, 2), 3, 0), (3, 12, 4, (2, 0, 1), 2, 0), (4, 15, 5, (2, 0), 3, 1), (5, 17, 6, (0, 2), 2, 0)]
